@@ -665,6 +665,13 @@ def c15(ctx):
     rng = np.random.default_rng(seed + 15)
     viols, evals, nontriv = [], 0, 0
     scs = valid_scens(seed + 15, n)
+    # thermal-time crops read the temperature columns a second time (crop calendar at initialisation)
+    scs.insert(0, dict(id=15900, start="1980/03/01", end="1982/09/30", weather={"kind": "file", "name": "tunis_climate.txt"},
+                       soil={"type": "SandyLoam"}, crop={"name": "WheatGDD", "planting": "10/15", "overrides": {}},
+                       irr={"method": 0}, off_season=True))
+    scs.insert(1, dict(id=15901, start="1990/05/01", end="1991/11/30", weather={"kind": "file", "name": "champion_climate.txt"},
+                       soil={"type": "SandyLoam"}, crop={"name": "MaizeGDD", "planting": "05/01", "overrides": {}},
+                       irr={"method": 1, "SMT": [60.0] * 4}, off_season=False))
     cols = ["MinTemp", "MaxTemp", "Precipitation", "ReferenceET", "Date"]
     import itertools
     perms = list(itertools.permutations(cols))
@@ -674,13 +681,20 @@ def c15(ctx):
             continue
         w0 = S.weather_of(sc)
         trans = []
-        pick = [perms[int(i)] for i in rng.choice(len(perms), 3 if tier == "quick" else 10, replace=False)]
+        pick = [perms[int(i)] for i in rng.choice(len(perms), 4 if tier == "quick" else 12, replace=False)]
+        pick.append(("MaxTemp", "MinTemp", "ReferenceET", "Precipitation", "Date"))
         for p in pick:
             trans.append(("permute-columns", w0[list(p)].copy()))
         w = w0.copy(); w.insert(0, "Wind", 3.3); w["Station"] = "x"; w.insert(3, "Rs", np.arange(len(w), dtype=float))
         trans.append(("extra-columns", w))
         w = w0.copy(); w.index = np.arange(len(w))[::-1] + 1000
         trans.append(("reindexed", w))
+        w = w0.copy(); w.index = np.arange(len(w)) + 1
+        trans.append(("one-based-index", w))
+        w = w0.copy(); w.insert(0, "DOY", w.Date.dt.dayofyear.astype(float))
+        trans.append(("leading-extra-column", w))
+        w = w0.copy(); w.index = pd.DatetimeIndex(w.Date)
+        trans.append(("date-index", w))
         w = w0.copy(); w.index = pd.Index([f"r{i}" for i in range(len(w))])
         trans.append(("string-index", w))
         start, end = pd.Timestamp(sc["start"]), pd.Timestamp(sc["end"])
